@@ -225,6 +225,21 @@ var c10Wrappers = []struct {
 	{"json.JSONTable by value", func(t tabular.Table) tabular.Table { return *json.Wrap(t) }},
 	{"markdown.MarkdownTable by value", func(t tabular.Table) tabular.Table { return *markdown.Wrap(t) }},
 	{"texttable.TextTable by value", func(t tabular.Table) tabular.Table { return *texttable.Wrap(t) }},
+	// a wrapper type of the application's own, made the way the library makes its own: a struct embedding the Table
+	// interface (every method is the embedded table's) with fields of its own next to it
+	{"application-defined struct embedding tabular.Table (by pointer)", func(t tabular.Table) tabular.Table {
+		return &c10AppTable{Table: t, Title: "application data"}
+	}},
+	{"application-defined struct embedding tabular.Table (by value)", func(t tabular.Table) tabular.Table {
+		return c10AppTable{Table: t, Title: "application data"}
+	}},
+}
+
+// c10AppTable is what an application that wants to carry a table around together with data of its own writes.
+type c10AppTable struct {
+	tabular.Table
+	Title string
+	Notes []string
 }
 
 // c10Renderer is what every wrapper offers.
